@@ -348,13 +348,14 @@ class db_post_init_painted:
     ensures_labels = {0: "decodes-to-the-regions-pairs"}
     modifies = ["DotBracket.pairs@self"]
     locals = {"begins": "dict[char,list[int]]", "matches": "dict[char,char]"}
-    loops = {0: ["len(self.pairs) >= 0",
-                 "forall(lambda l: implies(0 <= l and l < 30, OPEN[l] in begins and len(begins[OPEN[l]]) >= 0))",
-                 # stack l holds, in increasing order, exactly the opened positions of level l whose partner is still ahead
-                 "forall(lambda l, u: implies(0 <= l and l < 30 and 0 <= u and u < len(begins[OPEN[l]]), 0 <= begins[OPEN[l]][u] and begins[OPEN[l]][u] < i and exists(lambda a: 0 <= a and a < len(R) and O[a] == l and lo5(R, a) <= begins[OPEN[l]][u] and begins[OPEN[l]][u] <= hi5(R, a) and partner(R, a, begins[OPEN[l]][u]) >= i)))",
-                 "forall(lambda l, u, v: implies(0 <= l and l < 30 and 0 <= u and u < v and v < len(begins[OPEN[l]]), begins[OPEN[l]][u] < begins[OPEN[l]][v]))",
-                 "forall(lambda a, x: implies(0 <= a and a < len(R) and lo5(R, a) <= x and x <= hi5(R, a) and x < i and partner(R, a, x) >= i, exists(lambda u: 0 <= u and u < len(begins[OPEN[O[a]]]) and begins[OPEN[O[a]]][u] == x)))",
-                 "decoded(self.pairs, R, i)"]}
+    loops = {0: {"touches": {"DotBracket.pairs": ["self"]}, "inv": [
+        "len(self.pairs) >= 0",
+        "forall(lambda ch: implies(ch in OPEN, ch in begins and len(begins[ch]) >= 0), sorts={'ch': 'char'})",
+        # the stack of bracket type ch holds, in increasing order, exactly the opened positions of that type whose partner is still ahead
+        "forall(lambda ch, u: implies(ch in OPEN and 0 <= u and u < len(begins[ch]), 0 <= begins[ch][u] and begins[ch][u] < i and exists(lambda a: 0 <= a and a < len(R) and ch == OPEN[O[a]] and lo5(R, a) <= begins[ch][u] and begins[ch][u] <= hi5(R, a) and partner(R, a, begins[ch][u]) >= i)), sorts={'ch': 'char'})",
+        "forall(lambda ch, u, v: implies(ch in OPEN and 0 <= u and u < v and v < len(begins[ch]), begins[ch][u] < begins[ch][v]), sorts={'ch': 'char'})",
+        "forall(lambda a, x: implies(0 <= a and a < len(R) and lo5(R, a) <= x and x <= hi5(R, a) and x < i and partner(R, a, x) >= i, exists(lambda u: 0 <= u and u < len(begins[OPEN[O[a]]]) and begins[OPEN[O[a]]][u] == x)))",
+        "decoded(self.pairs, R, i)"]}}
 
 
 class make_dot_bracket:
